@@ -35,6 +35,8 @@ type leaseSvc struct {
 	renewErr  bool     // renewals fail with a transient error
 	failNext  int      // the next n renewals fail (then succeed again)
 	ttlLong   bool     // leases granted from now on have a TTL of an hour (no periodic renewal within a case)
+	cidArmed  bool     // fault: once the next Acquire has succeeded, cluster-id lookups fail
+	cidErr    bool     // ... the fault is active
 	log       []string // acquire / release events (for C08 oracles)
 }
 
@@ -70,6 +72,9 @@ func (l *nodeLeaser) Acquire(ctx context.Context) (litefs.Lease, error) {
 	s.leaseID++
 	s.info = litefs.PrimaryInfo{Hostname: l.host, AdvertiseURL: l.url}
 	s.event("acquire %d", l.idx)
+	if s.cidArmed {
+		s.cidArmed, s.cidErr = false, true
+	}
 	return &simLease{svc: s, idx: l.idx, id: s.leaseID, renewedAt: time.Now(), handoffCh: make(chan uint64, 1), long: s.ttlLong}, nil
 }
 
@@ -104,6 +109,9 @@ func (l *nodeLeaser) ClusterID(ctx context.Context) (string, error) {
 	l.ticks.Add(1)
 	l.svc.mu.Lock()
 	defer l.svc.mu.Unlock()
+	if l.svc.cidErr {
+		return "", errors.New("lease service: cluster id unavailable")
+	}
 	return l.svc.clusterID, nil
 }
 
@@ -281,6 +289,7 @@ type snapGate struct {
 }
 
 type clusterNode struct {
+	bgHalt chan string // answer of a halt-lock request issued in the background
 	pctx   context.Context
 	gate   *snapGate
 	hooked *litefs.DB
@@ -620,6 +629,58 @@ func (m *clusterImpl) Do(line string) string {
 			}
 		}
 		return "ok"
+	case "halt-bg": // halt-bg <k> <id>: the acquire request is issued in the background (it queues on the primary behind an open application transaction)
+		if len(f) != 3 {
+			return "bad-op"
+		}
+		n, _ := m.node(f[1])
+		if n == nil || !n.up {
+			return "bad-op"
+		}
+		if n.eng.db == nil {
+			if n.eng.db = n.eng.store.DB("db"); n.eng.db != nil {
+				n.eng.db.Now = func() time.Time { return fixedNow }
+			}
+		}
+		id, err := strconv.ParseInt(f[2], 10, 64)
+		if err != nil || n.eng.db == nil {
+			return "bad-op"
+		}
+		ch := make(chan string, 1)
+		n.bgHalt = ch
+		db := n.eng.db
+		go func() {
+			ctx, cancel := context.WithTimeout(context.Background(), 3*time.Second)
+			defer cancel()
+			hl, err := db.AcquireRemoteHaltLock(ctx, id)
+			if err != nil {
+				if errors.Is(err, litefs.ErrNoHaltPrimary) {
+					ch <- "err primary"
+				} else {
+					ch <- "err"
+				}
+				return
+			}
+			ch <- fmt.Sprintf("ok pos=%d:%016x", uint64(hl.Pos.TXID), uint64(hl.Pos.PostApplyChecksum))
+		}()
+		time.Sleep(40 * time.Millisecond) // the request reaches the primary and waits for the application's locks
+		return "started"
+	case "halt-join": // halt-join <k>: the answer to the background request
+		if len(f) != 2 {
+			return "bad-op"
+		}
+		n, _ := m.node(f[1])
+		if n == nil || n.bgHalt == nil {
+			return "bad-op"
+		}
+		ch := n.bgHalt
+		n.bgHalt = nil
+		select {
+		case out := <-ch:
+			return out
+		case <-time.After(4 * time.Second):
+			return "hang"
+		}
 	case "halt", "unhalt", "halt-expire", "halt-ttl": // halt <k> <id> | unhalt <k> <id> | halt-expire <p> | halt-http <p> <METHOD> <id> <own-of-node|other>
 		if len(f) < 2 {
 			return "bad-op"
@@ -833,6 +894,40 @@ func (m *clusterImpl) Do(line string) string {
 			}
 		}
 		return "ok"
+	case "cid-fault": // cid-fault arm|off|wait: the lease service stops answering cluster-id lookups right after the next successful Acquire
+		if len(f) != 2 {
+			return "bad-op"
+		}
+		switch f[1] {
+		case "arm":
+			m.svc.mu.Lock()
+			m.svc.cidArmed = true
+			m.svc.mu.Unlock()
+			return "ok"
+		case "off":
+			m.svc.mu.Lock()
+			m.svc.cidArmed, m.svc.cidErr = false, false
+			m.svc.mu.Unlock()
+			return "ok"
+		case "wait": // has the fault fired, and has the winner given the lease back?
+			for i := 0; i < 3000; i++ {
+				m.svc.mu.Lock()
+				fired, holder := m.svc.cidErr, m.svc.holder
+				m.svc.mu.Unlock()
+				if fired && holder == -1 {
+					return "fired"
+				}
+				time.Sleep(time.Millisecond)
+			}
+			m.svc.mu.Lock()
+			fired := m.svc.cidErr
+			m.svc.mu.Unlock()
+			if fired {
+				return "fired lease-kept"
+			}
+			return "not-fired"
+		}
+		return "bad-op"
 	case "clusterid-svc":
 		if len(f) != 2 {
 			return "bad-op"
